@@ -35,6 +35,20 @@ func newRealFS(fs *faultFS) *realFS {
 		if err := os.MkdirAll(filepath.Dir(p), 0700); err != nil {
 			panic(err)
 		}
+		if strings.HasPrefix(string(f.data), "VHSYMLINK:") {
+			// a symbolic link to a file in the same directory (relative target); what is "there" is the target's content
+			target := strings.TrimPrefix(string(f.data), "VHSYMLINK:")
+			if err := os.Symlink(target, p); err != nil {
+				panic(err)
+			}
+			tp := filepath.Join(filepath.Dir(f.path), target)
+			for _, g := range fs.files {
+				if g.path == tp {
+					r.orig[f.path] = string(g.data)
+				}
+			}
+			continue
+		}
 		if err := ioutil.WriteFile(p, f.data, 0600); err != nil {
 			panic(err)
 		}
